@@ -12,8 +12,8 @@ Model of /repo/io/hdf5.go (= every instantiation in gen-hdf5.go), /repo/io/hdf5_
   row-major order, the transfer rules of H5Dread/H5Dwrite (equal numbers of selected elements, selections inside the
   extents) and gonum's wrapper code around them. The same semantics is implemented by /verif/harness/hdf5stub.
 
-Two places model the code AS REPAIRED (AGENTS.md ground rules):
-* `sliceSize` rounds up (`/verif/fixes/h5_slicesize_ceil.diff`); `sliceSizeFloor` is the code before the repair.
+`sliceSize` rounds up: the code as repaired by `/verif/fixes/h5_slicesize_ceil.diff` (fix commit 6552b9c in /repo);
+`sliceSizeFloor` is the code before the repair.
 One defect is mirrored (known finding KF-C08-int-width, not repaired):
 * `narrow = true` for the element types `int` and `uint`: gonum maps them to H5T_NATIVE_INT/UINT (4 bytes) and passes
   the dataset's type as memory type, so the 8-byte Go elements are copied as pairs of 4-byte file elements
@@ -50,7 +50,7 @@ def uintsToInts (l : List Nat) : Idx := l.map Int.ofNat
 abbrev SelDim := Option (List Int)
 abbrev Sel := List SelDim
 
-/-- `sliceSize(slice, size)` AS REPAIRED: `(MaxInt(0, MinInt(size,slice[1]) - MinInt(size,slice[0])) + slice[2] - 1) / slice[2]`.
+/-- `sliceSize(slice, size)` (since fix 6552b9c): `(MaxInt(0, MinInt(size,slice[1]) - MinInt(size,slice[0])) + slice[2] - 1) / slice[2]`.
 Go `/` truncates; `slice[i]` out of range and a zero step panic. -/
 def sliceSize (sl : List Int) (size : Int) : R Int :=
   match sl with
